@@ -54,7 +54,20 @@ func (w *World) decorate(doc *J, isFlag bool) {
 	r := w.r
 	if isFlag {
 		if r.P(0.3) {
-			doc.Set("clientSideAvailability", JObj(KV{"usingMobileKey", JBool(r.P(0.5))}, KV{"usingEnvironmentId", JBool(r.P(0.5))}))
+			csa := JObj()
+			if r.P(0.6) { // each sub-property may be left out (= false); the empty object is still an explicit availability
+				csa.Set("usingMobileKey", JBool(r.P(0.5)))
+			}
+			if r.P(0.6) {
+				csa.Set("usingEnvironmentId", JBool(r.P(0.5)))
+			}
+			if r.P(0.1) {
+				csa.Set("zzUnknown", JNum(1))
+			}
+			doc.Set("clientSideAvailability", csa)
+			if r.P(0.5) {
+				doc.Replace("clientSide", JBool(r.P(0.5)))
+			}
 		} else if r.P(0.1) {
 			doc.Set("clientSideAvailability", JNull())
 		}
